@@ -361,3 +361,25 @@ impl Handler<RaftApplyDataRequest> for DirectCacheManager {
         Ok(RaftApplyDataResponse::None)
     }
 }
+
+/// verif hook: read-only view of the raw entry table (including entries that are already expired and
+/// therefore invisible through `CacheManagerLocalReq`), as (db key string, expire, value bytes).
+#[cfg(rnacos_verif)]
+#[derive(Message)]
+#[rtype(result = "Vec<(String, i32, Vec<u8>)>")]
+pub struct VerifRawEntries;
+
+#[cfg(rnacos_verif)]
+impl Handler<VerifRawEntries> for DirectCacheManager {
+    type Result = Vec<(String, i32, Vec<u8>)>;
+
+    fn handle(&mut self, _msg: VerifRawEntries, _ctx: &mut Self::Context) -> Self::Result {
+        let mut list: Vec<(String, i32, Vec<u8>)> = self
+            .cache
+            .iter()
+            .map(|(k, v)| (k.to_key_string(), v.expire, v.value.to_bytes()))
+            .collect();
+        list.sort();
+        list
+    }
+}
